@@ -73,3 +73,8 @@ for cls, flds in CLASSES.items():
             ens.append("same_seq(result.qubit_indices, self.qubit_indices)")
     contract(f"{cls}.copy", params=dict(self=REF(cls), relation_transfer_lookup=LOOKUP), returns=REF(cls), pure=True, props=P,
              requires=[f"typeis(self, {cls})"], ensures=ens, inst_depth=2)
+
+# every per-class copy also satisfies the interface contract that the composite's copy loop relies on for its children
+# (contracts/c06.py: fresh result of the same class, no existing graph / composite / relation touched)
+for cls in CLASSES:
+    refines(f"{cls}.copy", "ICircuitOperation.copy", props=P)
